@@ -5,6 +5,8 @@ import PercevalModel.Model.C04Session
 import PercevalModel.Model.C04Generic
 import PercevalModel.Model.C04TrimDet
 import PercevalModel.Model.C04Split
+import PercevalModel.Model.C04Decl
+import PercevalModel.Lemmas.C04Decl
 
 open Lean PM PM.Proto PM.Fock PM.Dist PM.SimSpec PM.SimProto PM.C04
 
@@ -400,6 +402,49 @@ def handle (j : Json) : Json :=
         | v => do return some (← v.getNat?)
       if !maxes.isEmpty && maxes.length ≠ m then throw "bad number of detectors"
       return Json.mkObj [("ok", toJson (checkHeraldsDetectors hs maxes))]
+    | "c04evsvd" =>
+      -- `Simulator.evolve_svd` on a mixture of annotated Fock states: the two performances and the weights of the
+      -- returned distribution (model `evolveSvd` / `evolveSvdWeights`) next to the specification
+      let ⟨m, U⟩ ← matOfJson j
+      let members ← (← arrOf j "members").toList.mapM memberOfJson
+      if members.any (fun mb => mb.groups.any (·.length ≠ m)) then throw "bad group size"
+      if members.any (fun mb => mb.groups.isEmpty) then throw "member without group"
+      let c ← cfgOfJson m (← j.getObjVal? "cfg")
+      let tab := engTable U members
+      let eng : Fock → D := fun s => (tab.lookup s).getD []
+      let ev := evolveSvd eng c members
+      let fullD := full eng m members
+      let sc := cond c
+      let ps := probsSvd eng c members
+      return Json.mkObj [
+        ("model", Json.mkObj [("phys", ratToJson ev.1), ("logical", ratToJson ev.2),
+                              ("weights", Json.arr ((evolveSvdWeights eng c members).map ratToJson).toArray)]),
+        ("probsSvd", Json.mkObj [("phys", ratToJson ps.phys), ("logical", ratToJson ps.logical)]),
+        ("spec", Json.mkObj [("phys", ratToJson (physPerf sc fullD)), ("logical", ratToJson (logicalPerf sc fullD)),
+                             ("retained", ratToJson (mass (retained sc fullD)))])]
+    | "c04decl" =>
+      -- `Experiment.add_herald` / `add_port` calls on `Experiment(m)`, every exception caught, then `with_input`
+      let m ← natOf j "m"
+      let ops ← (← arrOf j "ops").toList.mapM fun (o : Json) => do
+        match (← strOf o "t") with
+        | "herald" => pure (DeclOp.herald (← natOf o "mode") (← natOf o "expected"))
+        | "port" =>
+          let w ← natOf o "width"
+          if w = 0 then throw "port without mode"
+          pure (DeclOp.port (← natOf o "mode") w)
+        | t => throw s!"unknown declaration {t}"
+      let r := declRun (Exp.init m) ops
+      let user ← natList (← j.getObjVal? "user")
+      let res := r.2.map fun (x : DeclRes) => match x with
+        | .ok => "ok" | .assertionError => "AssertionError" | .unavailable => "UnavailableModeException"
+        | .indexError => "IndexError"
+      return Json.mkObj [
+        ("outcomes", toJson res),
+        ("heralds", Json.arr (r.1.heralds.map fun (p : ℕ × ℕ) => toJson [p.1, p.2]).toArray),
+        ("m", toJson r.1.nMoi), ("circuitSize", toJson r.1.circuitSize),
+        ("input", match r.1.withInput user with
+                  | none => Json.str "AssertionError"
+                  | some f => toJson f)]
     | "interleave" =>
       let m ← natOf j "m"
       let hs ← (← arrOf j "heralds").toList.mapM fun h => do
